@@ -2,19 +2,41 @@
    Property theorems only; proofs live in Lemmas/ConvLaws.v (and Lemmas/OkLaws.v).
    The declared grammar is Model/Conv.v: `level` (the conventional fragment), `compile` (the
    combinator term), `denote` (one left-to-right attribution scan + arity and value checks).
-   Full statement (C01_conformance, NOT proved in this revision):
+   Full statement (C01_conformance):
      forall l argv,  conv_ok l ->
        (forall v, denote l argv = Accept v -> run_inner feat env (compile_options l) None argv = OutOk v) /\
        (denote l argv = Reject -> exists m, run_inner feat env (compile_options l) None argv = OutStderr m).
-   It is decided on every run by conformance testing of the IMPLEMENTATION against `denote`
-   (sentences in every spelling and order, near-miss and mutated non-sentences) and of the
-   evaluator model against the implementation on the same vectors.
-   Proved here (PARTIAL): the "unknown name" half of the Reject direction for whole subcommand
-   trees, as a corollary of the exactly-once theorem of C05. *)
+   PROVED here: the Accept half for every FLAT level (any number/kind/arity of uniquely named
+   items, positional suffix, no subcommands) -- C01_sentences_accepted_flat -- by refinement:
+   AbsSim.v shows the evaluator of this fragment depends on the ledger only through its live
+   tokens (a second interpreter over token lists, simulation by mutual induction); ConvRefine.v
+   shows that the token-list interpreter applied to the compiled level computes exactly what the
+   attribution scan of `denote` computes (every item pops exactly its own occurrences in order,
+   the positional suffix takes the remaining words, nothing is left).  Also proved: the "unknown
+   name" half of Reject for whole subcommand trees (corollary of C05's exactly-once theorem).
+   NOT proved (decided per run by conformance testing of the implementation against `denote`):
+   the Accept half for subcommand trees and the rest of the Reject half. *)
 From Coq Require Import List Bool.
 From BpafModel Require Import Conv.
-From BpafLemmas Require Import Tac EvalEq Find Reach Ledger NoLoss C05Lemmas OkReach OkLaws ConvLaws.
+From BpafLemmas Require Import Tac EvalEq Find Reach Ledger NoLoss C05Lemmas OkReach OkLaws ConvLaws AbsSim ConvRefine.
 Import ListNotations.
+
+(* every sentence of a flat level, in every spelling and order the grammar admits, is accepted and
+   yields exactly the value it denotes: occurrences attributed to the item that owns the name,
+   repeated items in command-line order, absent optional items absent or defaulted *)
+Theorem C01_sentences_accepted_flat :
+  forall feat env items tail argv v,
+  flat_ok items tail ->
+  denote (Level items tail) argv = Accept v ->
+  run_inner feat env (compile_options (Level items tail)) None argv = OutOk v.
+Proof. exact denote_accept_flat. Qed.
+Print Assumptions C01_sentences_accepted_flat.
+
+(* the fragment's evaluator sees the ledger only through its live tokens *)
+Theorem C01_evaluator_depends_on_live_tokens_only :
+  forall env n p, flatp p = true -> sim_ev n (eval env p) (aeval (S (S n)) p).
+Proof. exact eval_sim. Qed.
+Print Assumptions C01_evaluator_depends_on_live_tokens_only.
 
 (* a key (`-x`, `--name`, with or without an attached value) that no item of the level tree owns
    and whose text is not a command name is never swallowed: no value is returned *)
@@ -48,3 +70,16 @@ Example C01_example :
             [[45;118]; [45;45;111;117;116;61;120]; [97]; [98]]%N
     = OutOk (VTuple [VBool true; VBytes [120%N]; VList [VBytes [97%N]; VBytes [98%N]]]).
 Proof. vm_compute. repeat split; reflexivity. Qed.
+
+(* the premises of C01_sentences_accepted_flat are satisfiable and decidable: `flat_okb` is a
+   boolean sufficient condition (checked on every generated level by the conformance run) *)
+Theorem C01_flat_ok_decidable :
+  forall items tail, flat_okb items tail = true -> flat_ok items tail.
+Proof. exact flat_okb_sound. Qed.
+Print Assumptions C01_flat_ok_decidable.
+
+Example C01_example_flat_ok :
+  flat_ok [CSwitch (mkNamed [118%N] [[118;101;114;98]%N] [] None);
+           CArg (mkNamed [111%N] [[111;117;116]%N] [] None) [70%N] TyString ARequired]
+          (TPos [mkCPos [87%N] TyString QMany]).
+Proof. apply flat_okb_sound. vm_compute. reflexivity. Qed.
